@@ -55,6 +55,12 @@ fn check_reply(fam: &str, i: u64, how: &str, req: &Packet, got: Option<&Packet>,
             rep.violation(viol(fam, i, "C07/response-prepared-for-ack-or-rst", format!("{}: a response was prepared: {:?}", how, to_ref(p)), case()));
             false
         }
+        (Some(_), None) if !(1..=31).contains(&to_ref(req).code) => {
+            // the statement quantifies over request messages: a message whose code is 0.00 or a response code is not
+            // one, and an implementation may decline to prepare a response for it
+            rep.count("no-response-for-a-non-request-code-(permitted)");
+            true
+        }
         (Some(_), None) => {
             rep.violation(viol(fam, i, "C07/no-response-for-con-or-non", format!("{}: no response prepared", how), case()));
             false
